@@ -149,6 +149,19 @@ def run_case(case, ctx):
         if g.size != 1:
             fail('scalar query returned %d values' % g.size, 'c14:scalar_query')
         check_values(g.reshape(1), [w], [q], ends, True, 'scalar query', 'c14:scalar_query', law)
+    # a law object that was already queried gets a corrected wavelength grid (same length): answers follow the new grid
+    if len(wav) >= 3:
+        moved = [wav[0]] + [w * 1.07 if wav[0] < w * 1.07 < wav[-1] and abs(w * 1.07 - 0.55) > 1e-9 else w for w in wav[1:-1]] + [wav[-1]]
+        moved = sorted(set(moved))
+        if len(moved) == len(wav) and moved != wav:
+            live = make_law(wav, chi, 'um', 'cm2/g')
+            query(live, 'um')
+            with must_succeed('assigning new wavelengths to a queried law'):
+                live.wav = np.array(moved) * u.micron
+            want_moved = of.extinction_pattern(moved, chi, qs)
+            check_values(query(live, 'um'), want_moved, qs, ends, True, 'after re-assigning wav on a queried object',
+                         'c14:stale_after_reassignment', {'wav': moved, 'chi': chi})
+            labels.add('wav_reassigned_after_query')
     # 2. query units
     check_values(query(base, case['query_unit']), want, qs, ends, case['query_unit'] == 'um',
                  'queries in %s' % case['query_unit'], 'c14:query_unit', law)
